@@ -11,6 +11,9 @@ LOOKUPS = ["東京都", "京都", "東京", "行く", "な", "ない", "", "特A
 PROJS = ["surface", "normalized", "reading", "dictionary", "dictionary_and_surface", "normalized_and_surface", "normalized_nouns"]
 FIELDS = [None, None, None, ["pos"], ["normalized_form", "pos"], ["surface"], ["split_a", "split_b", "pos"], ["dictionary_form", "reading_form", "synonym_group_id"], []]
 CFGS = ["default", "full", "regex"]
+PATTERNS = [["名詞"], ["動詞"], ["名詞", "固有名詞"], ["None", "None", "None", "None", "None", "終止形-一般"], ["助詞", "格助詞"], ["名詞", "普通名詞", "一般"],
+            ["形容詞"], ["名詞", "数詞"], ["None", "固有名詞", "地名"], [], ["存在しない"], ["名詞", "None", "一般"]]
+PRED = [(0, "名詞"), (0, "助詞"), (1, "普通名詞"), (5, "*"), (4, "五段-カ行"), (0, "無")]
 
 
 def cps(s):
@@ -29,12 +32,25 @@ def gen_session(rng, sid, nops):
     nlists = 0
     sizes = {}          # driver-side guess of list lengths is not needed: indices are drawn small, out-of-range is a legal call
     nh = 0
+    nm = 0
     long_text = cps("あ" * 16384)   # 49,152 bytes: refused by the library
     for _ in range(nops):
         r = rng.random()
         out = -1
         if nlists > 0 and rng.random() < 0.45:
             out = rng.randrange(nlists)
+        if rng.random() < 0.18:
+            rr = rng.random()
+            if rr < 0.45 or nm == 0:
+                op = {"op": "matcher", "mid": nm, "pats": [rng.choice(PATTERNS) for _ in range(rng.choice([1, 1, 2, 3]))]}
+            elif rr < 0.6:
+                f, v = rng.choice(PRED)
+                op = {"op": "matcher_fn", "mid": nm, "field": f, "value": v}
+            else:
+                op = {"op": "mop", "mid": nm, "kind": rng.choice(["or", "and", "sub", "inv"]), "a": rng.randrange(nm), "b": rng.randrange(nm)}
+            nm += 1
+            ops.append(op)
+            continue
         if r < 0.45 or nlists == 0:
             text = long_text if rng.random() < 0.08 else cps(rng.choice(TEXTS))
             op = {"op": "tokenize", "tk": rng.choice(tks), "text": text, "mode": rng.choice([-1, -1, 0, 1, 2]), "out": out, "new": nlists}
